@@ -9,7 +9,7 @@
    Not proved (evaluated on the implementation on every run): Quaternion(Matrix3)'s four branches (isometry
    constructors of the 3D groups), SE_2(3) / SGal(3) accessor round trips, precision of cast<float>. *)
 From Coq Require Import Reals ZArith List Lra.
-From Manif Require Import Scalar Mat Group RInst Generic LieSpec SO2 SE2 SO3 SE3 Rn Ctor Hist SE2Proofs SO3Proofs CtorProofs QuatOfMatrix.
+From Manif Require Import Scalar Mat Group RInst Generic LieSpec SO2 SE2 SO3 SE3 Rn Ctor Hist SE2Proofs SO3Proofs CtorProofs QuatOfMatrix SE23 SGal3 CtorFamily.
 Import ListNotations.
 Local Open Scope R_scope.
 
@@ -83,6 +83,36 @@ Theorem C13_so3_from_matrix x y z w : n4 x y z w = 1 ->
             so3_rotation RS q = @quat_matrix RS [x; y; z; w] /\ (q = [x; y; z; w] \/ q = [- x; - y; - z; - w]).
 Proof. exact (so3_from_matrix x y z w). Qed.
 Print Assumptions C13_so3_from_matrix.
+
+(* SE3, SE_2(3), SGal(3): constructors from (translation, quaternion[, velocity[, time]]) and their accessors *)
+Theorem C13_se3_accessors t0 t1 t2 x y z w :
+  let X := [t0; t1; t2; x; y; z; w] in
+  @se3_ctor RS 0 [[t0; t1; t2]; [x; y; z; w]] = Some X /\
+  se3_t RS X = [t0; t1; t2] /\ se3_q RS X = [x; y; z; w] /\ se3_rotation RS X = so3_rotation RS [x; y; z; w] /\
+  @se3_ctor RS 0 [se3_t RS X; se3_q RS X] = Some X.
+Proof. exact (se3_ctor_accessors t0 t1 t2 x y z w). Qed.
+Theorem C13_se23_accessors t0 t1 t2 x y z w v0 v1 v2 :
+  let X := [t0; t1; t2; x; y; z; w; v0; v1; v2] in
+  @se23_ctor RS 0 [[t0; t1; t2]; [x; y; z; w]; [v0; v1; v2]] = Some X /\
+  se23_t RS X = [t0; t1; t2] /\ se23_q RS X = [x; y; z; w] /\ se23_v RS X = [v0; v1; v2] /\
+  se23_rotation RS X = so3_rotation RS [x; y; z; w] /\
+  @se23_ctor RS 0 [se23_t RS X; se23_q RS X; se23_v RS X] = Some X.
+Proof. exact (se23_ctor_accessors t0 t1 t2 x y z w v0 v1 v2). Qed.
+Theorem C13_sgal3_accessors p0 p1 p2 x y z w v0 v1 v2 t :
+  let X := [p0; p1; p2; x; y; z; w; v0; v1; v2; t] in
+  @sg_ctor RS 0 [[p0; p1; p2]; [x; y; z; w]; [v0; v1; v2]; [t]] = Some X /\
+  sg_p RS X = [p0; p1; p2] /\ sg_q RS X = [x; y; z; w] /\ sg_v RS X = [v0; v1; v2] /\ sg_t RS X = t /\
+  sg_rotation RS X = so3_rotation RS [x; y; z; w] /\
+  @sg_ctor RS 0 [sg_p RS X; sg_q RS X; sg_v RS X; [sg_t RS X]] = Some X.
+Proof. exact (sg_ctor_accessors p0 p1 p2 x y z w v0 v1 v2 t). Qed.
+Theorem C13_se23_transform_layout t0 t1 t2 x y z w v0 v1 v2 :
+  exists r00 r01 r02 r10 r11 r12 r20 r21 r22, so3_rotation RS [x; y; z; w] = [[r00; r01; r02]; [r10; r11; r12]; [r20; r21; r22]] /\
+  se23_transform RS [t0; t1; t2; x; y; z; w; v0; v1; v2] = [[r00; r01; r02; t0; v0]; [r10; r11; r12; t1; v1]; [r20; r21; r22; t2; v2]; [0; 0; 0; 1; 0]; [0; 0; 0; 0; 1]].
+Proof. exact (se23_transform_layout t0 t1 t2 x y z w v0 v1 v2). Qed.
+Theorem C13_sgal3_transform_layout p0 p1 p2 x y z w v0 v1 v2 t :
+  exists r00 r01 r02 r10 r11 r12 r20 r21 r22, so3_rotation RS [x; y; z; w] = [[r00; r01; r02]; [r10; r11; r12]; [r20; r21; r22]] /\
+  sg_transform RS [p0; p1; p2; x; y; z; w; v0; v1; v2; t] = [[r00; r01; r02; v0; p0]; [r10; r11; r12; v1; p1]; [r20; r21; r22; v2; p2]; [0; 0; 0; 1; t]; [0; 0; 0; 0; 1]].
+Proof. exact (sg_transform_layout p0 p1 p2 x y z w v0 v1 v2 t). Qed.
 
 Example C13_nonvacuous : n4 (2/7) (3/7) (6/7) 0 = 1 /\ (3/5) * (3/5) + (4/5) * (4/5) = 1 /\ 1/8 <= Rabs (sqrt (n4 1 1 0 0) - 1).
 Proof.
